@@ -95,12 +95,28 @@ def seg(c):
             to_real(e['begin_time']), to_real(e['end_time']))
 
 
+CUM = z3.Function('env_time_of_breakpoint', z3.IntSort(), z3.RealSort())    # CUM(k) = sum of the first k durations
+_k = z3.Int('k')
+CUM_AXIOMS = [CUM(0) == 0]        # + CUM(k+1) = CUM(k) + duration k, instantiated at every loop head (cum_step)
+
+
+def cum_step(eng, st):
+    k = st.env['__i0'].z
+    st.pc.append(CUM(k + 1) == CUM(k) + DATA[5 + 4 * k])
+
+
 def at_post(c):
+    """time in segment p = [CUM(p), CUM(p+1)): the value comes from THAT segment (levels DATA[4p] -> DATA[4p+4]);
+    time at or after the last breakpoint: the last level"""
     e = c.st.env
     r = c.result
+    if '__i0' not in e:
+        return z3.BoolVal(False)
+    j = e['__i0'].z                                                        # passes started when the call returns
     sl, tl, bt, et = seg(c) if 'target_level' in e else (to_real(e['start_level']),) * 2 + (z3.RealVal(0),) * 2
     inside = c.time < et
-    after = z3.Implies(z3.Not(inside), r == to_real(e['start_level']))   # holds the last level
+    after = z3.Implies(z3.Not(inside), z3.And(j == NSTAGES, c.time >= CUM(NSTAGES),
+                                              r == DATA[4 * NSTAGES]))     # holds the LAST level, only after the end
     if 'i' not in e:
         return after
     lo = z3.If(sl <= tl, sl, tl)
@@ -108,6 +124,9 @@ def at_post(c):
     sh = SHAPE(e['i'].z + 2)
     between = z3.And(lo <= r, r <= hi)
     return z3.And(after, z3.Implies(inside, z3.And(
+        j >= 1, bt == CUM(j - 1), et == CUM(j), bt <= c.time,              # the segment that contains `time`
+        sl == DATA[4 * (j - 1)], tl == DATA[4 * j],                        # between ITS two breakpoint levels
+        e['i'].z == 4 * j,
         z3.Implies(z3.Or(sh == 1, sh == 0, sh == 8), between),            # lin, step, hold
         z3.Implies(sh == 0, r == tl),                                      # step jumps immediately
         z3.Implies(sh == 8, r == sl),                                      # hold keeps the previous level
@@ -115,10 +134,10 @@ def at_post(c):
 
 
 def at_inv(c, L):
-    # begin_time is the end of the previous segment, never after `time`;
-    # start_level is the level reached there
-    return z3.And(L.begin_time == L.end_time, L.begin_time <= c.time,
-                  L.i >= 0)
+    # after k passes: begin_time is breakpoint k's time (the sum of the first k durations), never after
+    # `time`; start_level is the level of breakpoint k
+    return z3.And(L.begin_time == L.end_time, L.begin_time == CUM(L.i), L.begin_time <= c.time,
+                  L.start_level == DATA[4 * L.i], L.i >= 0)
 
 
 contract(F, 'Env._env_at', props=('C19',),
@@ -128,8 +147,9 @@ contract(F, 'Env._env_at', props=('C19',),
                                        z3.And(z3.Int('k') >= 0, z3.Int('k') < NSTAGES),
                                        DATA[5 + 4 * z3.Int('k')] > 0))),      # positive durations
          raises={'ValueError': None, 'ZeroDivisionError': None},   # exp(curve) == 1 is possible for the uninterpreted exp
-         ensures=[('breakpoints-betweenness-and-hold-after-the-end', at_post)],
-         loops={0: Loop(inv=at_inv, kinds={
+         ensures=[('value-from-the-segment-containing-time;last-level-after-the-end', at_post)],
+         axioms=CUM_AXIOMS,
+         loops={0: Loop(early_exit=True, inv=at_inv, havoc_hook=cum_step, kinds={
              'target_level': 'real', 'target_dur': 'real', 'end_time': 'real',
              'begin_time': 'real', 'start_level': 'real', 'shape': 'real', 'pos': 'real',
              'curve': 'real'})},
